@@ -39,6 +39,27 @@ fn check_state(rep: &mut Report, regs: &[u8; 256], family: &str) {
             return;
         }
     };
+    // a cleared sketch is the empty sketch: same register state as a new one (hence estimate 0 and neutral in a merge)
+    {
+        let hs2 = hs.clone();
+        match catch(move || {
+            let mut c = Hll8::from_hex_string(&hs2).ok()?;
+            c.clear();
+            Some((c.to_hex_string(), c.estimate_count()))
+        }) {
+            Ok(Some((h, est))) => {
+                if h != Hll8::new().to_hex_string() || est != 0 {
+                    rep.finding(
+                        "cleared-sketch-not-empty",
+                        &format!("family {family}: after clear() the sketch exports {} non-zero digit(s) and estimates {est}", h.bytes().filter(|b| *b != b'0').count()),
+                        json!({"kind":"state","hex":hs}),
+                    );
+                }
+            }
+            Ok(None) => {}
+            Err(p) => rep.finding(&format!("clear-panic@{}", p.location), &p.message, json!({"kind":"state","hex":hs})),
+        }
+    }
     // export == identity
     match catch(|| imported.to_hex_string()) {
         Ok(s) => {
